@@ -93,10 +93,13 @@ Accessors(fields, kind) == [ i \in 1..Len(fields) |-> "Get" \o FieldName(fields[
                            \o Concat([ i \in 1..Len(fields) |-> IF fields[i].opt \/ kind = "union" THEN << "IsSet" \o FieldName(fields[i]) >> ELSE << >> ], 1)
 FieldNames(fields) == [ i \in 1..Len(fields) |-> FieldName(fields[i]) ]
 
-GoNameValid(n) == TRUE      \* go.name values are checked in the driver's cases by construction (capitalised, no underscore)
+\* goNameAnnotation: a go.name must start with an upper-case letter and contain no underscore (strings are opaque to
+\* TLC, so validity is a table over the annotation values the models use)
+GoNamePool == {"Foo", "String", "ErrorName", "GetBar", "MarshalLogObject", "IsSetBar", "lower", "With_Underscore", "Bar"}
+GoNameValid(n) == n = "" \/ n \in GoNamePool \ {"lower", "With_Underscore"}
 
 StructAccepted(fields, kind, zap) ==
-  /\ \A i \in 1..Len(fields) : FieldName(fields[i]) \notin ReservedOf(kind, zap)
+  /\ \A i \in 1..Len(fields) : GoNameValid(fields[i].goname) /\ FieldName(fields[i]) \notin ReservedOf(kind, zap)
   /\ Distinct(FieldNames(fields) \o Accessors(fields, kind))
 StructBuilds(fields, kind, zap) ==
   /\ StructAccepted(fields, kind, zap)
@@ -113,6 +116,7 @@ StructLikes(defs, i) ==
 DeclaredNames(defs, o) == (IF o.embed THEN << "ThriftModule" >> ELSE << >>)
                           \o Concat([ i \in 1..Len(defs) |-> IF defs[i].kind = "const" /\ ~o.consts THEN << >> ELSE TopNames(defs[i], o) ], 1)
 ModelAccepts(defs, o) == /\ Distinct(PackageNames(defs, o))
+                         /\ \A i \in 1..Len(defs) : GoNameValid(defs[i].goname)
                          /\ \E sl \in { StructLikes(defs, 1) } : \A k \in 1..Len(sl) : StructAccepted(sl[k][1], sl[k][2], o.zap)
 ModelBuilds(defs, o)  == /\ ModelAccepts(defs, o)
                          /\ \E sl \in { StructLikes(defs, 1) } : \A k \in 1..Len(sl) : StructBuilds(sl[k][1], sl[k][2], o.zap)
@@ -136,8 +140,9 @@ IDLValid(defs) ==
 (* declares or defines anywhere shares a name with anything else.                                             *)
 AllMethods == MethodsOf("exception", TRUE) \cup MethodsOf("args", TRUE) \cup {"Ptr", "MarshalLogArray", "MarshalJSON", "UnmarshalJSON", "MarshalText", "UnmarshalText"}
 Safe(defs) == /\ Distinct(PackageNames(defs, AllOn))
+              /\ \A i \in 1..Len(defs) : GoNameValid(defs[i].goname)
               /\ \E sl \in { StructLikes(defs, 1) } : \A k \in 1..Len(sl) :
                    LET fs == sl[k][1] kind == sl[k][2] IN
                    /\ Distinct(FieldNames(fs) \o Accessors(fs, kind))
-                   /\ \A i \in 1..Len(fs) : FieldName(fs[i]) \notin AllMethods
+                   /\ \A i \in 1..Len(fs) : GoNameValid(fs[i].goname) /\ FieldName(fs[i]) \notin AllMethods
 =============================================================================
